@@ -274,6 +274,15 @@ fn serde_checks(col: &mut TCol, x: &[u8], with_json: bool) {
     let r = std::panic::catch_unwind(|| {
         assert_ser_tokens(&b, &[Token::Bytes(leaked)]);
         assert_ser_tokens(&m, &[Token::Bytes(leaked)]);
+        if x.len() != 2 {
+            // (not for the 65536 exhaustive pairs: cost) every representation must serialise the same window
+            for (_, rb) in bytes_reps(x) {
+                assert_ser_tokens(&rb, &[Token::Bytes(leaked)]);
+            }
+            for (_, rm) in mut_reps(x) {
+                assert_ser_tokens(&rm, &[Token::Bytes(leaked)]);
+            }
+        }
     });
     if r.is_err() {
         col.viol("C15", "serialize-is-not-serialize_bytes(contents)", "Bytes/BytesMut", "Serializer", format!("{:02x?}", x), replay.clone());
@@ -333,9 +342,15 @@ fn one(col: &mut TCol, x: &[u8], all_reps: bool, json_rt: bool) {
 fn string_strategy() -> BoxedStrategy<Vec<u8>> {
     let risky: Vec<u8> = vec![0, b'0', b'1', b'9', b'a', b'f', b'x', b'n', b'r', b't', b'"', b'\\', b'\'', b'\n', b'\r', b'\t', 0x7f, 0x80, 0xff, 0x1f, 0x20, 0x7e];
     prop_oneof![
-        proptest::collection::vec(any::<u8>(), 0..300),
-        proptest::collection::vec(proptest::sample::select(risky), 0..24),
-        proptest::collection::vec(0x20u8..0x7f, 0..64),
+        30 => proptest::collection::vec(any::<u8>(), 0..300),
+        30 => proptest::collection::vec(proptest::sample::select(risky.clone()), 0..24),
+        20 => proptest::collection::vec(0x20u8..0x7f, 0..64),
+        // long inputs: buffer-flush boundaries of a formatter, the 4096-element pre-allocation cap of visit_seq
+        4 => proptest::collection::vec(proptest::sample::select(risky), 300..1400),
+        3 => proptest::collection::vec(any::<u8>(), 4090..4110),
+        2 => proptest::collection::vec(any::<u8>(), 8000..9000),
+        // valid UTF-8 with multi-byte characters (byte length != char count) for the str / String entry points
+        10 => proptest::collection::vec(proptest::sample::select(vec!["a", "\u{e9}", "\u{20ac}", "\u{1f600}", "\"", "\\", "0", "\n"]), 0..40).prop_map(|v| v.concat().into_bytes()),
     ]
     .boxed()
 }
